@@ -286,9 +286,12 @@ def certify_krylov(ctx, M, site, guards):
         raise AnalysisError('anchor vanished: `field, info = solver(...)`')
     info = ast.unparse(st.targets[0].elts[1])
     # site must be in the info == 0 arm
+    kws = {k.arg: k.value for k in call.keywords}
+    mx = ast.unparse(kws['maxiter']) if 'maxiter' in kws else None
     env_ok = []
     for v in (-1, 0, 1):
-        fe = FiniteEval({info: v, f'{ast.unparse(st.targets[0].elts[0])}': 0})
+        fe = FiniteEval({info: v, f'{ast.unparse(st.targets[0].elts[0])}': 0,
+                         **({mx: 5} if mx else {})})
         try:
             active = all(bool(fe.ev(t)) == pol for t, pol in guards)
         except AnalysisError as e:
@@ -298,7 +301,16 @@ def certify_krylov(ctx, M, site, guards):
         return False, (f'CONVERGED is stored for info in '
                        f'{[v for v, a in zip((-1, 0, 1), env_ok) if a]}, '
                        'scipy reports success only with info == 0')
-    kws = {k.arg: k.value for k in call.keywords}
+    # scipy returns info = maxiter when the iteration limit is reached: with
+    # maxiter == 0 that is info == 0 although nothing was iterated
+    if mx is not None:
+        fe = FiniteEval({info: 0, f'{ast.unparse(st.targets[0].elts[0])}': 0,
+                         mx: 0})
+        if all(bool(fe.ev(t)) == pol for t, pol in guards):
+            return False, (f'with {mx} == 0 scipy returns info == maxiter == 0 '
+                           'without iterating; the success arm does not '
+                           'exclude that case (CONVERGED with the unchanged '
+                           'start field)')
     ps = au.params(kry)
     if ast.unparse(kws.get('b', ast.Constant(None))) != f'{ps[1]}.field':
         return False, 'right-hand side of the Krylov system is not the source'
